@@ -202,6 +202,26 @@ def check_model(spec, res, ctx):
                 bad("acorr_value", "order %d stds %r: max abs error %.3e" % (j, stds, np.nanmax(np.abs(gotc[ok_cells] - expc[ok_cells]))),
                     order=min(j, 1), what="acorr", stds=stds)
         results.append((stds, [np.asarray(a, dtype=float) for a in ac]))
+        # the same matrices whichever way they are asked for: a smaller up_to_order is a prefix, get_acorr from
+        # supplied autocovariances equals get_acorr computed by the model, the default call is order 0
+        try:
+            res.ev()
+            res.count("call_form_runs")
+            for kk in (0, 1):
+                part = m.get_acov(up_to_order=kk)
+                partc = m.get_acorr(up_to_order=kk)
+                if len(part) != kk + 1 or any(not np.array_equal(np.asarray(part[j], dtype=float), np.asarray(ac[j], dtype=float), equal_nan=True) for j in range(min(kk + 1, len(part)))):
+                    bad("call_form", "get_acov(up_to_order=%d) is not the prefix of get_acov(up_to_order=%d)" % (kk, K), what="call_form", stds=stds)
+                if len(partc) != kk + 1 or any(not np.array_equal(np.asarray(partc[j], dtype=float), np.asarray(co[j], dtype=float), equal_nan=True) for j in range(min(kk + 1, len(partc)))):
+                    bad("call_form", "get_acorr(up_to_order=%d) is not the prefix of get_acorr(up_to_order=%d)" % (kk, K), what="call_form", stds=stds)
+            d0 = m.get_acov()
+            if len(d0) != 1 or not np.array_equal(np.asarray(d0[0], dtype=float), np.asarray(ac[0], dtype=float), equal_nan=True):
+                bad("call_form", "get_acov() is not order 0 of get_acov(up_to_order=%d)" % K, what="call_form", stds=stds)
+            co2 = m.get_acorr(acov=ac)
+            if len(co2) != len(co) or any(not np.allclose(np.asarray(co2[j], dtype=float), np.asarray(co[j], dtype=float), rtol=1e-12, atol=1e-14, equal_nan=True) for j in range(len(co))):
+                bad("call_form", "get_acorr(acov=get_acov(...)) differs from get_acorr(up_to_order=%d)" % K, what="call_form", stds=stds)
+        except Exception as e:
+            bad("exception", "call forms: %s: %s" % (type(e).__name__, str(e)[:200]), error=type(e).__name__, stds=stds)
     # rescaling
     for s in (0.5, 3.0):
         res.ev()
@@ -262,7 +282,8 @@ def run(ctx, total, info):
     info["models"] = len(fam)
     info["exhaustive"] = True
     info["floors"] = {"cases": (len(total.nontrivial), 600), "nan_patterns": (len(total.classes.get("nan_pattern", ())), 4),
-                      "variant_runs": (total.counters.get("variant_runs", 0), 200)}
+                      "variant_runs": (total.counters.get("variant_runs", 0), 200),
+                      "call_form_runs": (total.counters.get("call_form_runs", 0), 1000)}
 
 
 def replay(case):
